@@ -1,6 +1,8 @@
 import SuppModel.Drv.Util
 import SuppModel.Flow.Memo
 import SuppModel.Flow.Checked
+import SuppModel.Flow.Scoping
+import SuppModel.Flow.Iso
 
 namespace SuppModel.Drv.Flow
 open Lean SuppModel.Flow SuppModel.Drv
@@ -93,6 +95,38 @@ def handle (j : Json) : Json :=
     | .error e, _, _ => errJson e
     | _, .error e, _ => errJson e
     | _, _, .error e => errJson e
+  | .ok "scoping" =>   -- C05: well-formedness of the graph; per query, the owner scope of every Name alternative and the lookup chain
+    match (j.getObjVal? "graph").bind graphOf, (jarr j "queries").bind (·.toList.mapM queryOf) with
+    | .ok g, .ok qs =>
+      let answers := runQueries g g.fuel {} qs
+      let rows := (List.zip qs answers).map (fun (q, a) =>
+        let chain := match g.flow? q.flow with | some fr => lookupChain g fr.scope | none => []
+        let owners := match a with
+          | some (some v) => v.filterMap (fun (alt : Alt) => match alt with
+              | Alt.nm id => some (Json.arr #[Json.num (id : Nat), match g.owner? id with | some s => Json.num (s : Nat) | none => Json.null])
+              | _ => none)
+          | _ => []
+        Json.mkObj [("answer", answerJson a), ("chain", Json.arr (chain.map (fun (s : Nat) => Json.num s)).toArray),
+                    ("owners", Json.arr owners.toArray)])
+      Json.mkObj [("wf", Json.bool g.wf), ("rows", Json.arr rows.toArray)]
+    | .error e, _ => errJson e
+    | _, .error e => errJson e
+  | .ok "iso" =>   -- C13: two layouts of one program: same shape, and per query the compared positions are ordered alike
+    match (j.getObjVal? "g1").bind graphOf, (j.getObjVal? "g2").bind graphOf,
+          (jarr j "q1").bind (·.toList.mapM queryOf), (jarr j "q2").bind (·.toList.mapM queryOf) with
+    | .ok g1, .ok g2, .ok q1, .ok q2 =>
+      let shape := sameShape g1 g2
+      let pairs := List.zip q1 q2
+      let keys := q1.length == q2.length && pairs.all (fun (a, b) => a.flow == b.flow && a.key == b.key)
+      let ords := pairs.map (fun (a, b) => orderIsoAt g1 g2 a.flow a.pos b.pos)
+      Json.mkObj [("sameShape", Json.bool shape), ("sameQueries", Json.bool keys),
+                  ("orderIso", Json.arr (ords.map Json.bool).toArray),
+                  ("a1", Json.arr ((runQueries g1 g1.fuel {} q1).map answerJson).toArray),
+                  ("a2", Json.arr ((runQueries g2 g2.fuel {} q2).map answerJson).toArray)]
+    | .error e, _, _, _ => errJson e
+    | _, .error e, _, _ => errJson e
+    | _, _, .error e, _ => errJson e
+    | _, _, _, .error e => errJson e
   | .ok "evalpure" =>   -- the pure evaluator, each query from scratch (exponential: small graphs only)
     match (j.getObjVal? "graph").bind graphOf, (jarr j "queries").bind (·.toList.mapM queryOf) with
     | .ok g, .ok qs => Json.mkObj [("answers", Json.arr ((qs.map (fun q => lookupAt g g.fuel q.flow q.pos q.key)).map answerJson).toArray)]
